@@ -13,7 +13,7 @@ from harness.core import CaseResult, hit, rng_for
 RULE = ('edge {smtp, wsgi-call, wsgi-loopback} x queue {Queue + RecipientDomainSplit with n = 1..4 envelopes, ProxyQueue}; Queue: every vector of write '
         'outcomes over {ok, QueueError, QueueError carrying a 4xx / 5xx reply, other exception, gevent.Timeout} for n <= 3 and single deviations for n = 4, plus a slow '
         '(gated) write at each position; ProxyQueue: relay result in {None, Reply, mapping / sequence with every position failing 4xx / 5xx or none, '
-        'raised Permanent / Transient}. distinct = distinct case descriptor; non-trivial = n >= 2 or a failure.')
+        'raised Permanent / Transient}; one enqueue call end to end against Model/Ingress.lean: random chains of the built-in policies (split, domain split, forwarding rule sets, header policies, peel) x 1-6 recipients from the C16 pool x failing writes at random positions x relay present / absent x null / non-null sender x {smtp, wsgi}. distinct = distinct case descriptor; non-trivial = n >= 2 or a failure.')
 BUDGET_S = {'quick': 170, 'thorough': 900}
 WRITES = ['ok', 'qe', 'qe452', 'qe552', 'exc', 'tmo']
 
@@ -61,6 +61,21 @@ def cases(tier, seed, phase):
         for validators in (True, False):
             for uri in (True, False):
                 yield {'kind': 'wsgi-gate', 'edge': 'wsgi', 'refuse': refuse, 'validators': validators, 'uri': uri}
+    # one enqueue call end to end (Model/Ingress.lean): policy chain x recipients x write outcomes x relay, both edges
+    from harness.props import c16
+    ing_tokens = ['S', 'D', 'D', 'F0.1', 'F2.3', 'F5.2.1', 'F6.1', 'A', 'R', 'P']
+    for j in range(400 if tier == 'quick' else 6000):
+        rng = rng_for(seed, 'c02i', j)
+        chain = [rng.choice(ing_tokens) for _ in range(rng.choice([1, 1, 2, 2, 3, 4]))]
+        rl = [rng.choice(c16.RCPT_POOL) for _ in range(rng.choice([1, 2, 3, 3, 4, 6]))]
+        bad = rng.choice([None, None, 'qe', 'qe452', 'qe552', 'exc'])
+        writes = {}
+        if bad:
+            writes[rng.randrange(0, 4)] = bad
+            if rng.random() < 0.3:
+                writes[rng.randrange(0, 6)] = rng.choice(['qe', 'exc'])
+        yield {'kind': 'ingress', 'edge': rng.choice(['smtp', 'wsgi']), 'chain': chain, 'rcpts': rl, 'writes': writes,
+               'nonnull': rng.random() < 0.8, 'relay': rng.random() < 0.7}
     for j in range(30 if tier == 'quick' else 600):
         rng = rng_for(seed, 'c02c', j)
         yield {'kind': 'concurrent', 'edge': 'smtp', 'nclients': rng.choice([2, 2, 3]), 'ndomains': rng.choice([1, 2, 3]),
@@ -172,6 +187,8 @@ def make_queue(case, state):
 
 
 def recipients(case):
+    if 'rcpts' in case:
+        return list(case['rcpts'])
     n = len(case['writes']) if case['kind'] == 'queue' else case['n']
     return ['user%d@domain%d.example' % (i, i) for i in range(n)]
 
@@ -214,7 +231,7 @@ def drive_smtp(case, queue, state):
         with gevent.Timeout(5):
             read_reply()
             a.sendall(b'EHLO client.example\r\n'); read_reply()
-            a.sendall(b'MAIL FROM:<sender@example.com>\r\n'); read_reply()
+            a.sendall(('MAIL FROM:<%s>\r\n' % case.get('sender', 'sender@example.com')).encode()); read_reply()
             for r in recipients(case):
                 a.sendall(('RCPT TO:<%s>\r\n' % r).encode()); read_reply()
             a.sendall(b'DATA\r\n'); read_reply()
@@ -248,7 +265,7 @@ def wsgi_environ(case):
     return {
         'REQUEST_METHOD': 'POST', 'PATH_INFO': '/', 'CONTENT_TYPE': 'message/rfc822', 'CONTENT_LENGTH': str(len(body)),
         'wsgi.input': io.BytesIO(body), 'REMOTE_ADDR': '127.0.0.1', 'wsgi.url_scheme': 'http',
-        'HTTP_X_EHLO': 'client.example', 'HTTP_X_ENVELOPE_SENDER': b64('sender@example.com'),
+        'HTTP_X_EHLO': 'client.example', 'HTTP_X_ENVELOPE_SENDER': b64(case.get('sender', 'sender@example.com')),
         'HTTP_X_ENVELOPE_RECIPIENT': ', '.join(b64(r) for r in recipients(case)),
     }, body
 
@@ -465,11 +482,194 @@ def run_concurrent(case, model):
     return CaseResult(None, hits, key, ['concurrent-deliveries'])
 
 
+def run_ingress(case, model):
+    """One message through a real edge into a real Queue with a chain of the built-in policies, a storage whose k-th write fails and
+    (optionally) a relay that keeps every attempt in flight; compared with the composition Model/Ingress.lean: the reply, the
+    envelopes of the policies, what the storage holds for every id it handed out, what was handed to the relay, the active ids."""
+    import re
+    import gevent
+    from gevent.event import Event
+    from slimta.queue import QueueError
+    from slimta.queue.dict import DictStorage
+    from slimta.relay import Relay
+    from slimta.smtp.reply import Reply
+    from harness.props import c16
+    try:
+        gevent.get_hub().exception_stream = None
+    except Exception:
+        pass
+    state = {}
+    calls = []            # per write call: (recipients of the envelope, outcome token, real id)
+    handed = []
+    never = Event()
+    writes = {int(k): v for k, v in case['writes'].items()}
+
+    class Store(DictStorage):
+        def write(self, envelope, timestamp):
+            k = len(calls)
+            w = writes.get(k, 'ok')
+            rec = [list(envelope.recipients), w, None]
+            calls.append(rec)
+            if w == 'ok':
+                rec[2] = DictStorage.write(self, envelope, timestamp)
+                return rec[2]
+            if w == 'exc':
+                raise RuntimeError('disk on fire')
+            e = QueueError('cannot write')
+            if w == 'qe452':
+                e.reply = Reply('452', '4.3.1 Insufficient system storage')
+            elif w == 'qe552':
+                e.reply = Reply('552', '5.3.4 Too big for the queue')
+            raise e
+
+    class R(Relay):
+        def attempt(self, envelope, attempts):
+            handed.append((list(envelope.recipients), attempts, envelope))
+            never.wait()
+    q = c16.build_queue(case['chain'])
+    store = Store()
+    q.store = store
+    q.relay = R() if case['relay'] else None
+    state['store'] = store
+    given = []
+    real_enqueue = q.enqueue
+
+    def enqueue(envelope):
+        given.append(list(envelope.recipients))
+        return real_enqueue(envelope)
+    q.enqueue = enqueue
+    sender = 'sender@example.com' if case['nonnull'] else ''
+    rc = {'kind': 'queue', 'rcpts': case['rcpts'], 'sender': sender}
+    if case['edge'] == 'smtp':
+        out = drive_smtp(rc, q, state)
+    else:
+        out = drive_wsgi(rc, q, state)
+    gevent.sleep(0)               # the _attempt greenlets reach the relay
+    code = out['code']
+    hits = []
+    tag = case['edge']
+    if len(given) != 1:
+        # the edge refused a recipient or never handed the message on: nothing to compare (not this property)
+        return CaseResult(None, hits, None, ['ingress', 'edge-did-not-enqueue'])
+    rcpts = given[0]
+    # ---- the model line (values and oracle tables as in C16)
+    ids = {}
+
+    def vid(sv):
+        return ids.setdefault(sv, len(ids))
+    seen = set(rcpts)
+    frontier = list(dict.fromkeys(rcpts))
+    for _ in range(len(case['chain']) + 1):
+        new = []
+        for v in frontier:
+            for pat, repl, count in c16.RULES:
+                nv, ch = re.subn(pat, repl, v, count)
+                if nv not in seen:
+                    seen.add(nv)
+                    new.append(nv)
+        frontier = new
+    allvals = sorted(seen)
+    for v in rcpts:
+        vid(v)
+    for v in allvals:
+        vid(v)
+    dom = {}
+    domt = []
+    for v in allvals:
+        k = c16.spec_domkey(v)
+        domt.append('%d=%s' % (ids[v], '!' if k is None else str(dom.setdefault(k, len(dom)))))
+    subt = []
+    for ri, (pat, repl, count) in enumerate(c16.RULES):
+        for v in allvals:
+            nv, ch = re.subn(pat, repl, v, count)
+            subt.append('%d:%d=%d:%d:%d' % (ri, ids[v], vid(nv), ch, 1 if nv else 0))
+    mchain = ','.join(t if not t.startswith('F') else 'F' + '.'.join(map(str, c16.RULESETS[t])) for t in case['chain'])
+    mw = []
+    idmap = {}
+    for k, (_, w, rid) in enumerate(calls):
+        if w == 'ok':
+            idmap[rid] = k + 1
+            mw.append('ok:%d' % (k + 1))
+        else:
+            mw.append(w)
+    line = 'ingress run %s %s - %s %s %s %d %d' % (mchain, ','.join(str(ids[v]) for v in rcpts), ';'.join(domt) or '-', ';'.join(subt) or '-',
+                                                  ','.join(mw) or '-', 1 if case['nonnull'] else 0, 1 if case['relay'] else 0)
+    mres = model.ask(line)
+    # ---- the implementation, in the model's words
+    name = {v: k for k, v in ids.items()}
+
+    def vals(rl):
+        return ','.join(str(ids.get(r, -1)) for r in rl) or '-'
+    impl = {'code': code, 'envs': '|'.join(vals(c[0]) for c in calls)}
+    impl['stored'] = '|'.join('%d=%s@%d' % (idmap[rid], vals(store.env_db[rid].recipients), store.meta_db[rid]['attempts'])
+                              if rid in store.env_db else '%d=none' % idmap[rid] for _, w, rid in calls if w == 'ok')
+    env_ids = {id(env): rid for rid, env in store.env_db.items()}
+    impl['handed'] = '|'.join('%s@%d' % (vals(rl), att) for rl, att, _ in handed)
+    impl['active'] = ','.join(str(x) for x in sorted(idmap[r] for r in q.active_ids if r in idmap)) or '-'
+    mm = {}
+    mismatch = None
+    if mres.startswith('smtp='):
+        parts = mres.split(' ')
+        for x in parts:
+            if '=' in x:
+                k, v = x.split('=', 1)
+                mm[k] = v
+        slot_val = {}
+        for part in mm.get('envs', '').split('|'):
+            for x in part.split(','):
+                if ':' in x:
+                    sl, v = x.split(':')
+                    slot_val[sl] = v
+
+        def unslot(text, with_id):
+            out = []
+            for part in text.split('|') if text else []:
+                head, rest = (part.split('=', 1) if with_id else ('', part))
+                body, _, att = rest.partition('@')
+                body = body if body in ('none', '-') else ','.join(slot_val.get(x, '?') for x in body.split(','))
+                out.append((head + '=' if with_id else '') + body + ('@' + att if att else ''))
+            return '|'.join(out)
+        want = {'code': int(mm['smtp'] if case['edge'] == 'smtp' else mm['wsgi']),
+                'envs': '|'.join(','.join(x.split(':')[1] for x in part.split(',')) if part != '-' else '-' for part in mm.get('envs', '').split('|')),
+                'stored': unslot(mm.get('stored', ''), True),
+                'handed': '|'.join(x.split('=', 1)[1] for x in unslot(mm.get('handed', ''), True).split('|') if x),
+                'active': mm.get('active', '-')}
+        if 'stuck' in parts:
+            want['stuck'] = True
+        if impl != want:
+            mismatch = {'op': 'ingress run', 'impl': impl, 'model': want, 'line': line[:600]}
+    else:
+        mismatch = {'op': 'ingress run', 'impl': impl, 'model': mres, 'line': line[:600]}
+    # ---- the property on the implementation alone
+    ack = isinstance(code, int) and code // 100 == 2
+    fwd_chain = [c16.RULESETS[t] for t in case['chain'] if t.startswith('F')]
+    expect = []
+    for r in rcpts:
+        for rules in fwd_chain:
+            r = c16.spec_forward_one(r, rules)
+        expect.append(r)
+    have = sorted(r for env in store.env_db.values() for r in env.recipients)
+    failed = [w for _, w, _ in calls if w != 'ok']
+    if ack and have != sorted(expect):
+        hits.append(hit('c02.ack-without-custody.%s.ingress' % tag, 'the client got a success reply although the storage does not hold every (rewritten) '
+                        'recipient of the message exactly once', observed={'code': code, 'stored': have, 'writes': case['writes']}, expected=sorted(expect)))
+    elif failed and (code == 'timeout' or (isinstance(code, int) and code // 100 not in (4, 5))):
+        hits.append(hit('c02.failed-write-not-reported.%s' % tag, 'a storage write failed and the client did not get a 4xx/5xx reply',
+                        observed={'code': code, 'writes': case['writes']}))
+    never.set()
+    key = ('ingress', case['edge'], tuple(case['chain']), tuple(rcpts), tuple(sorted(writes.items())), case['relay'], case['nonnull'])
+    tags = ['ingress', case['edge'], 'envs=%s' % ('1' if len(calls) == 1 else '2-3' if len(calls) <= 3 else '4+'), 'ack' if ack else 'nack',
+            'relay' if case['relay'] else 'no-relay', 'failing-write' if failed else 'all-writes-ok']
+    return CaseResult(mismatch, hits, key, tags)
+
+
 def run_case(case, model):
     if case.get('kind') == 'wsgi-gate':
         return run_wsgi_gate(case, model)
     if case.get('kind') == 'concurrent':
         return run_concurrent(case, model)
+    if case.get('kind') == 'ingress':
+        return run_ingress(case, model)
     import gevent
     try:
         gevent.get_hub().exception_stream = None
